@@ -4,6 +4,7 @@
 //!   kv-harness gen <suite> <seed> <n> <tier>      → ops lines on stdout (+ `#STATS {json}` last line)
 //!   kv-harness run <suite> < ops                  → impl trace on stdout, one line per op line
 //!                                                   (+ `!oracle …` lines for implementation-side oracles)
+mod alloc_monitor;
 mod probe;
 mod runner;
 mod suites;
@@ -11,6 +12,9 @@ mod sweep;
 mod util;
 
 use std::io::{BufRead, Write};
+
+#[global_allocator]
+static GLOBAL: alloc_monitor::Counting = alloc_monitor::Counting;
 
 fn main() {
 	let args: Vec<String> = std::env::args().collect();
